@@ -171,6 +171,9 @@ func Main(prop string) {
 	}
 	root := vf.TempDir("ledger-" + prop)
 	defer os.RemoveAll(root)
+	if prop == "C03" {
+		coinHoursLeg(r)
+	}
 	vf.Parallel(nHist, 16, func(i int) {
 		dir := filepath.Join(root, fmt.Sprint(i))
 		_ = os.MkdirAll(dir, 0755)
@@ -197,6 +200,7 @@ func Main(prop string) {
 		h.Close()
 		_ = os.RemoveAll(dir)
 	})
+	_ = os.RemoveAll(root) // Finish exits the process; deferred calls would not run
 	setFloors(r, prop)
 	r.Finish(ruleText(prop), assumptions(prop)...)
 }
@@ -275,9 +279,17 @@ func (h *H) Run(nSteps int) {
 
 func (h *H) step() {
 	x := h.Rng.Intn(100)
+	if h.Prop == "C05" && h.Rng.Intn(8) == 0 {
+		// the property under decision is about conflict handling: more conflict structures
+		h.stepInjectConflictFan()
+		h.stepPublish()
+		return
+	}
 	switch {
 	case x < 3:
 		h.stepInjectTie()
+	case x < 6:
+		h.stepInjectConflictFan()
 	case x < 30:
 		h.stepInject(h.Pub, h.Rng.Intn(3) == 0)
 	case x < 36:
